@@ -172,6 +172,7 @@ func Scalars() []Named {
 		N("Number promoted from a nil interface 10 levels down", DeepI9{}), N("Number promoted from a nil interface 13 levels down", &DeepI12{}),
 		N("nil slice of a type with String", KindSlice(nil)), N("nil map of a type with String", KindMap(nil)), N("nil map of a type with Number", NilableNum(nil)), N("map of a type with Number", NilableNum{"a": 1}),
 		N("nil func of a type with Boolean", NilableBool(nil)), N("func of a type with Boolean", NilableBool(func() bool { return true })),
+		N("own methods over nil embedded values with the same methods", OwnOverNil{Tag: "t"}), N("*own methods over nil embedded values", &OwnOverNil{Tag: "p"}),
 		NilSafePointer(), N("embeds a nil SafeValue", EmbedsSafe{Tag: "t"}), N("*embeds a nil SafeValue", &EmbedsSafe{}), N("embeds a SafeValue", EmbedsSafe{SafeValue: stick.NewSafeValue("es", "html")}),
 		N("nil *time.Time", (*time.Time)(nil)), N("*time.Time", func() *time.Time { t := time.Date(2020, 2, 29, 23, 59, 59, 0, time.UTC); return &t }()), N("nil *big.Int", (*big.Int)(nil)), N("nil *big.Float", (*big.Float)(nil)), N("nil *url.URL", (*url.URL)(nil)),
 		N("nil *decimal.Decimal", (*decimal.Decimal)(nil)), N("*decimal.Decimal", func() *decimal.Decimal { d := decimal.NewFromFloat(2.5); return &d }()), N("nil *json.Number", (*json.Number)(nil)), N("nil *time.Duration", (*time.Duration)(nil)), N("nil *net.IP", (*net.IP)(nil)), N("nil *[]byte", (*[]byte)(nil)), N("nil *error", (*error)(nil)),
@@ -235,6 +236,8 @@ func Containers() []Named {
 		N("safe-slice", stick.NewSafeValue([]int{1, 2}, "html")),
 		N("embeds iface holding typed nil", EmbedsIfaces{Stringer: (*ValStringer)(nil), Number: (*ValNumber)(nil)}), N("*embeds iface holding typed nil", &EmbedsIfaces{Boolean: (*ValBoolean)(nil)}),
 		N("embeds nil ifaces", EmbedsIfaces{}), N("*embeds nil ifaces", &EmbedsIfaces{}), N("embeds Stringer only", EmbedsIfaces{Stringer: ValStringer{"es"}}), N("embeds nil *ValStringer", EmbedsStringerPtr{Tag: "t"}), N("embeds *ValStringer", EmbedsStringerPtr{&ValStringer{"ep"}, "t"}),
+		N("Shadow (outer field hides the embedded one)", Shadow{Inner{"inner-name", 1}, "outer-name"}), N("*DeepShadow", &DeepShadow{Shadow{Inner{"inner", 1}, "mid"}, "outer-N"}), N("Ambig (X at the same depth twice)", Ambig{A1{1, 2}, A2{3, 4}, "t"}),
+		N("LateWins (the shallower X is declared first, a deeper one later)", LateWins{A1{5, 6}, Wrap2{Wrap3{"deep"}}}),
 		N("OuterVal", OuterVal{Inner{"in", 1}, 2}), N("*OuterVal", &OuterVal{Inner{"pin", 3}, 4}), N("OuterPtr", OuterPtr{&Inner{"ep", 5}, 6}), N("OuterPtr nil-embedded", OuterPtr{nil, 7}), N("*OuterPtr nil-embedded", &OuterPtr{nil, 8}),
 		N("OuterIface", func() OuterIface {
 			n := 9
@@ -255,7 +258,7 @@ func Keys() []Named {
 	return []Named{
 		N("'a'", "a"), N("'k'", "k"), N("'1'", "1"), N("'0'", "0"), N("'Name'", "Name"), N("'hidden'", "hidden"), N("'ValueMethod'", "ValueMethod"), N("'PtrMethod'", "PtrMethod"),
 		N("'Add'", "Add"), N("'Variadic'", "Variadic"), N("'Join'", "Join"), N("'Fmt'", "Fmt"), N("'Two'", "Two"), N("'Nothing'", "Nothing"), N("'NilFunc'", "NilFunc"), N("'Fn'", "Fn"), N("'TakesPtr'", "TakesPtr"), N("'TakesUint'", "TakesUint"), N("'TakesInt8'", "TakesInt8"), N("'TakesUint8'", "TakesUint8"),
-		N("'TakesIface'", "TakesIface"), N("'TakesFloat'", "TakesFloat"), N("'TakesSlice'", "TakesSlice"), N("'Concat'", "Concat"), N("'hiddenMethod'", "hiddenMethod"), N("'missing'", "missing"), N("''", ""), N("'Étiquette'", "Étiquette"), N("'Ωmega'", "Ωmega"), N("'étiquette'", "étiquette"), N("-0.0", math.Copysign(0, -1)), N("'-0'", "-0"), N("'-0.0'", "-0.0"), N("float32 -0", float32(math.Copysign(0, -1))), NilSafePointer(), N("embeds a nil SafeValue as key", EmbedsSafe{}), N("opinionated safe 1", OpinionatedSafe{Inner: 1}), N("'Secret'", "Secret"), N("'secret'", "secret"), N("'Open'", "Open"), N("'Kids'", "Kids"), N("'GetSecret'", "GetSecret"), N("'IsOpen'", "IsOpen"), N("'HasKids'", "HasKids"), N("'Get'", "Get"), N("'count'", "count"),
+		N("'TakesIface'", "TakesIface"), N("'TakesFloat'", "TakesFloat"), N("'TakesSlice'", "TakesSlice"), N("'Concat'", "Concat"), N("'hiddenMethod'", "hiddenMethod"), N("'missing'", "missing"), N("''", ""), N("'X'", "X"), N("'OnlyA'", "OnlyA"), N("'OnlyB'", "OnlyB"), N("'Étiquette'", "Étiquette"), N("'Ωmega'", "Ωmega"), N("'étiquette'", "étiquette"), N("-0.0", math.Copysign(0, -1)), N("'-0'", "-0"), N("'-0.0'", "-0.0"), N("float32 -0", float32(math.Copysign(0, -1))), NilSafePointer(), N("embeds a nil SafeValue as key", EmbedsSafe{}), N("opinionated safe 1", OpinionatedSafe{Inner: 1}), N("'Secret'", "Secret"), N("'secret'", "secret"), N("'Open'", "Open"), N("'Kids'", "Kids"), N("'GetSecret'", "GetSecret"), N("'IsOpen'", "IsOpen"), N("'HasKids'", "HasKids"), N("'Get'", "Get"), N("'count'", "count"),
 		N("'Items'", "Items"), N("'Inner'", "Inner"), N("'Any'", "Any"), N("'Attrs'", "Attrs"), N("'ID'", "ID"), N("'note'", "note"), N("'innerLower'", "innerLower"), N("'A'", "A"), N("'B'", "B"), N("'C'", "C"), N("'N'", "N"), N("'Extra'", "Extra"), N("'Hello'", "Hello"), N("'PtrHello'", "PtrHello"), N("'String'", "String"), N("'Number'", "Number"), N("'Boolean'", "Boolean"), N("'Tag'", "Tag"), N("'PP'", "PP"), N("'Next'", "Next"), N("KeyStr('a')", KeyStr("a")), N("KeyStringer('a')", KeyStringer("a")), N("OuterIface{slice}", OuterIface{Any: []int{1}}), N("KeyInt(1)", KeyInt(1)), N("'true'", "true"),
 		// strings that strconv.ParseFloat accepts but that are no usable index
 		N("'NaN'", "NaN"), N("'nan'", "nan"), N("'Inf'", "Inf"), N("'-Inf'", "-Inf"), N("'+Infinity'", "+Infinity"), N("'1e400'", "1e400"), N("'0x1'", "0x1"), N("'0x1p-2'", "0x1p-2"),
@@ -506,3 +509,42 @@ type (
 
 func (n NilableNum) Number() float64 { return float64(40 + len(n)) }
 func (f NilableBool) Boolean() bool  { return f == nil }
+
+// OwnOverNil declares String, Number and Boolean itself and also embeds nil values that have methods of the same
+// names: its own methods are the ones that count (and they can be called).
+type OwnOverNil struct {
+	*ValStringer
+	*ValNumber
+	*ValBoolean
+	Tag string
+}
+
+func (o OwnOverNil) String() string  { return "own:" + o.Tag }
+func (o OwnOverNil) Number() float64 { return 77 }
+func (o OwnOverNil) Boolean() bool   { return true }
+
+// Field names that occur at several depths of embedding: the selector rules of Go decide - the shallowest wins
+// (Shadow.Name is the outer field), two at the same depth are ambiguous and name no field (Ambig.X).
+type (
+	Shadow struct {
+		Inner
+		Name string
+	}
+	DeepShadow struct {
+		Shadow
+		N string
+	}
+	A1    struct{ X, OnlyA int }
+	A2    struct{ X, OnlyB int }
+	Ambig struct {
+		A1
+		A2
+		Tag string
+	}
+	LateWins struct {
+		A1
+		Wrap2
+	}
+	Wrap2 struct{ Wrap3 }
+	Wrap3 struct{ X string }
+)
